@@ -566,7 +566,6 @@ func serve(st *runState, l *rig.Link, wrapped [][]byte, sl *serverLog, quit <-ch
 
 type totals struct {
 	mu    sync.Mutex
-	slow  []string
 	sigs  map[uint64]struct{}
 	maxBy map[int]int // limit -> max outstanding seen on the wire
 	maxCl map[int]int
@@ -643,14 +642,6 @@ func runCase(c *core.Ctx, cs *caseSpec, blocks []*rig.Block, wrappedNtN, wrapped
 	}
 	cfg := chainsync.NewConfig(opts...)
 
-	t0 := time.Now()
-	defer func() {
-		if d := time.Since(t0); d > 3*time.Second {
-			tot.mu.Lock()
-			tot.slow = append(tot.slow, fmt.Sprintf("case %d %s limit=%d msgs=%d stop=%s: %.1fs", cs.Idx, cs.mode(), cs.Limit, cs.Messages, cs.StopMode, d.Seconds()))
-			tot.mu.Unlock()
-		}
-	}()
 	c.Journal("C21 case %d %s limit=%d msgs=%d stop=%s@%d policy=%d perturb=%d", cs.Idx, cs.mode(), cs.Limit, cs.Messages, cs.StopMode, cs.StopAt, cs.Policy, cs.Perturb)
 	l, err, ok := rig.Dial(cs.NtN, watchdog, ouroboros.WithChainSyncConfig(cfg))
 	c.Eval()
@@ -720,7 +711,7 @@ func runCase(c *core.Ctx, cs *caseSpec, blocks []*rig.Block, wrappedNtN, wrapped
 	var stopErr error
 	stopDone := false
 	verdictStall := ""
-	var stallDump string
+	var stallDump *rig.ParsedDump
 	last, lastChange := progress(), time.Now()
 	start := time.Now()
 	tick := time.NewTicker(200 * time.Millisecond)
@@ -773,7 +764,7 @@ loop:
 					continue
 				}
 				if f := os.Getenv("VERIF_C21_DUMP"); f != "" {
-					os.WriteFile(fmt.Sprintf("%s.%d", f, cs.Idx), []byte(stallDump), 0o644)
+					os.WriteFile(fmt.Sprintf("%s.%d", f, cs.Idx), []byte(stallDump.Text), 0o644)
 				}
 				verdictStall = "stall in phase " + phase
 				break loop
@@ -938,8 +929,8 @@ loop:
 }
 
 // judgeStall applies the bounded-progress rule to a case whose counters froze.
-func judgeStall(c *core.Ctx, cs *caseSpec, st *runState, sl *serverLog, what, dump string, stopGo, ctorGo int64, stopStarted bool, errs []error, w map[string]any) {
-	if dump == "" || strings.HasPrefix(what, "watchdog") {
+func judgeStall(c *core.Ctx, cs *caseSpec, st *runState, sl *serverLog, what string, dump *rig.ParsedDump, stopGo, ctorGo int64, stopStarted bool, errs []error, w map[string]any) {
+	if dump == nil || strings.HasPrefix(what, "watchdog") {
 		c.Inconclusive(fmt.Sprintf("case %d (%s limit=%d): %s", cs.Idx, cs.mode(), cs.Limit, what))
 		return
 	}
@@ -955,13 +946,16 @@ func judgeStall(c *core.Ctx, cs *caseSpec, st *runState, sl *serverLog, what, du
 		return
 	}
 	if stopStarted {
-		blk := rig.StackOf(dump, stopGo)
-		if blk != "" && strings.Contains(blk, "chainsync.(*Client).Stop") && rig.Parked(blk) {
+		g, _ := dump.Find(stopGo)
+		blk := g.Block
+		if blk != "" && strings.Contains(blk, "chainsync.(*Client).Stop") && g.Parked {
 			w["goroutine"] = rig.Trim(blk, 14)
 			where := "other"
 			switch {
 			case strings.Contains(blk, "enqueueMessage"):
 				where = "enqueue-done"
+			case strings.Contains(blk, "UnregisterProtocol"):
+				where = "unregister-protocol"
 			case strings.Contains(blk, "[chan receive"):
 				where = "wait-protocol-done"
 			}
@@ -975,14 +969,20 @@ func judgeStall(c *core.Ctx, cs *caseSpec, st *runState, sl *serverLog, what, du
 	out := sl.recvReq - sl.sentRepl
 	// the client is idle: every goroutine of this connection is parked, and a sync loop is parked
 	syncLoopParked := false
-	for _, blk := range strings.Split(dump, "\n\n") {
-		if strings.Contains(blk, "chainsync.(*Client).syncLoop") && rig.Parked(blk) {
+	for _, g := range dump.Gs {
+		if g.Parked && strings.Contains(g.Block, "chainsync.(*Client).syncLoop") {
 			syncLoopParked = true
 		}
 	}
-	own := rig.CreatedIn(dump, ctorGo)
-	if ok, busy := rig.AllParked(own); !ok || len(own) == 0 {
-		c.Inconclusive(fmt.Sprintf("case %d (%s limit=%d): %s, but the connection is still working: %s", cs.Idx, cs.mode(), cs.Limit, what, rig.Trim(busy, 3)))
+	own := dump.Descendants(ctorGo)
+	for _, g := range own {
+		if !g.Parked {
+			c.Inconclusive(fmt.Sprintf("case %d (%s limit=%d): %s, but the connection is still working: %s", cs.Idx, cs.mode(), cs.Limit, what, rig.Trim(g.Block, 3)))
+			return
+		}
+	}
+	if len(own) == 0 {
+		c.Inconclusive(fmt.Sprintf("case %d (%s limit=%d): %s, no goroutine of the connection in the dump", cs.Idx, cs.mode(), cs.Limit, what))
 		return
 	}
 	switch {
@@ -1062,8 +1062,7 @@ func run(c *core.Ctx) {
 		runCase(c, cases[i], blocks, wrappedNtN, wrappedNtC, tot)
 	})
 	c.Note("distinct_interleaving_signatures", len(tot.sigs))
-	sort.Strings(tot.slow)
-	c.Note("cases_slower_than_3s", tot.slow)
+	c.Note("goroutine_dumps", map[string]int64{"count": rig.DumpCount.Load(), "total_ms": rig.DumpMs.Load()})
 	var ls []int
 	for l := range tot.maxBy {
 		ls = append(ls, l)
